@@ -1021,15 +1021,25 @@ func main() {
 				return string(b)
 			})
 		}
+		// C12_FAULT="<case>" / "<case>:once": self-test of the crash classification (the child dies after the
+		// whole case <case>; with ":once" only in the first run). Never set in normal operation.
+		fault := func(ci int, again bool) {
+			f := os.Getenv("C12_FAULT")
+			if f == strconv.Itoa(ci) || (f == strconv.Itoa(ci)+":once" && !again) {
+				panic("C12_FAULT: injected death of the child after the whole case")
+			}
+		}
 		if strings.HasPrefix(mode, "rebatch:") { // one whole case again, in a fresh child
 			ci, _ := strconv.Atoi(strings.TrimPrefix(mode, "rebatch:"))
 			fw.ChildLoop(func(int) string {
 				b, _ := json.Marshal(e.runCase(run.Tier, corpus, cases[ci], -1))
+				fault(ci, true)
 				return string(b)
 			})
 		}
 		fw.ChildLoop(func(i int) string {
 			b, _ := json.Marshal(e.runCase(run.Tier, corpus, cases[i], -1))
+			fault(i, false)
 			return string(b)
 		})
 		return
